@@ -742,7 +742,9 @@ def c13(S, rec, events=None):
         if ph == "updated":
             # (e) finished top-level components are placed nowhere
             for c in range(S.nc):
-                if not S.parents[c] and all(sn["T"][t]["st"] == FIN for t in S.comp_tasks[c]) and sn["C"][c]["pw"] is not None:
+                tree = [c] + sorted(S.descendants(c))
+                if not S.parents[c] and all(sn["T"][t]["st"] == FIN for x in tree for t in S.comp_tasks[x]) \
+                        and any(sn["C"][x]["pw"] is not None for x in tree):
                     out.append(V("(e) a component whose tasks are all FINISHED is still placed", "C13/e", (k, c)))
         if ph in ("allocated", "recorded"):
             for i in range(S.nt):
@@ -767,16 +769,12 @@ def c13(S, rec, events=None):
             for c in range(S.nc):
                 if pv["C"][c]["pw"] != sn["C"][c]["pw"]:
                     out.append(V("(d) placement changed outside the update/allocate phases", "C13/d-phase", (k, ph, c)))
-    if events:
-        # events: list of (step, component index, workplace index or None) for every set_placed_workplace
-        # call on a component object; more than one non-None placement of the same top-most call per step
-        per = {}
-        for (k, c, wp, top) in events:
-            if wp is not None and top:
-                per.setdefault((k, c), []).append(wp)
-        for (k, c), lst in per.items():
-            if len(lst) > 1:
-                out.append(V("(d) component moved more than once in one step", "C13/d-twice", (k, c, lst)))
+    per = {}
+    for (k, c, wp) in rec.get("events", []):
+        per.setdefault((k, c), []).append(wp)
+    for (k, c), lst in per.items():
+        if len(lst) > 1:
+            out.append(V("(d) component moved more than once in one step", "C13/d-twice", (k, c, lst)))
     return out
 
 
